@@ -39,9 +39,9 @@ var GoFileFilter = func(path string) bool {
 }
 
 var PomXmlFilter = func(path string) bool {
-	return strings.HasSuffix(path, "pom.xml")
+	return filepath.Base(path) == "pom.xml"
 }
 
 var BuildGradleFilter = func(path string) bool {
-	return strings.HasSuffix(path, "build.gradle")
+	return filepath.Base(path) == "build.gradle"
 }
